@@ -163,7 +163,7 @@ one_gzip_write(struct gzw a)
         gh.os = a.os;
         gh.extra = a.has_extra ? gz_extra : NULL;
         gh.extra_len = a.extra_len;
-        gh.extra_buf_len = a.extra_len;
+        gh.extra_buf_len = a.extra_len + 7; /* a reader-side field: must not influence the writer */
         gh.name = a.has_name ? gz_name : NULL;
         gh.name_buf_len = a.name_buf_len;
         gh.comment = a.has_comment ? gz_comment : NULL;
@@ -241,6 +241,339 @@ gz_size(struct gzw a)
                (a.has_comment ? a.comment_len + 1 : 0) + (a.hcrc ? 2 : 0);
 }
 
+
+/* ================================================================ readers */
+#include <sys/mman.h>
+#include <signal.h>
+#include <unistd.h>
+
+/* Buffers that END at an inaccessible page: one byte too many read or written raises SIGSEGV, which is
+ * reported as a reproduced out-of-bounds access. */
+#define NGUARD 8
+static struct {
+        uint8_t *base;
+        size_t cap;
+} guard[NGUARD];
+static void
+on_segv(int sig)
+{
+        static const char m[] = " :: out-of-bounds access (guard page hit) in the reader\n";
+        write(1, "REPRODUCED ", 11);
+        write(1, ctx, strlen(ctx));
+        write(1, m, sizeof m - 1);
+        _exit(1);
+}
+static void
+guard_init(void)
+{
+        long pg = sysconf(_SC_PAGESIZE);
+        for (int i = 0; i < NGUARD; i++) {
+                guard[i].cap = 32 * pg;
+                guard[i].base = mmap(0, guard[i].cap + pg, PROT_READ | PROT_WRITE, MAP_PRIVATE | MAP_ANONYMOUS, -1, 0);
+                if (guard[i].base == MAP_FAILED || mprotect(guard[i].base + guard[i].cap, pg, PROT_NONE))
+                        exit(2);
+        }
+        signal(SIGSEGV, on_segv);
+        signal(SIGBUS, on_segv);
+}
+/* n bytes ending exactly at the guard page of slot i (n == 0: the pointer IS the guard page) */
+static uint8_t *
+gbuf(int i, size_t n)
+{
+        if (n > guard[i].cap)
+                exit(2);
+        return guard[i].base + guard[i].cap - n;
+}
+
+static struct inflate_state ist;
+
+/* ---------------------------------------------------------------- fixed_size_read */
+static void
+one_fixed(uint32_t N, uint32_t T, uint32_t A)
+{
+        uint8_t *in = gbuf(0, A), *rb = (uint8_t *) 0x10, *rb0, carried[16], want[32];
+        uint32_t ret;
+        snprintf(ctx, sizeof ctx, "read_size=%u tmp_in_size=%u avail_in=%u", N, T, A);
+        memset(&ist, 0, sizeof ist);
+        memset(ist.tmp_in_buffer, 0xEE, sizeof ist.tmp_in_buffer);
+        for (uint32_t i = 0; i < T; i++)
+                carried[i] = ist.tmp_in_buffer[i] = 0x40 + i;
+        for (uint32_t i = 0; i < A; i++)
+                in[i] = 0x80 + i;
+        for (uint32_t i = 0; i < T + A && i < sizeof want; i++)
+                want[i] = i < T ? carried[i] : in[i - T];
+        ist.next_in = in;
+        ist.avail_in = A;
+        ist.tmp_in_size = T;
+        rb0 = rb;
+        ret = fixed_size_read(&ist, &rb, N);
+        if (T + A < N) {
+                if (ret != ISAL_END_INPUT || ist.avail_in != 0 || ist.next_in != in + A || ist.tmp_in_size != (int) (T + A) || rb != rb0)
+                        FAIL("short input: ret=%u avail_in=%u tmp_in_size=%d", ret, ist.avail_in, ist.tmp_in_size);
+                for (uint32_t i = 0; i < T + A; i++)
+                        if (ist.tmp_in_buffer[i] != want[i])
+                                FAIL("carried byte %u is %02x, should be %02x", i, ist.tmp_in_buffer[i], want[i]);
+        } else {
+                if (ret != 0 || ist.tmp_in_size != 0 || ist.next_in != in + (N - T) || ist.avail_in != A - (N - T))
+                        FAIL("ret=%u: input advanced by %ld, should be %u", ret, (long) (ist.next_in - in), N - T);
+                if (rb != (T ? ist.tmp_in_buffer : in))
+                        FAIL("*read_buf points neither at tmp_in_buffer nor at the input");
+                for (uint32_t i = 0; i < N; i++)
+                        if (rb[i] != want[i])
+                                FAIL("field byte %u is %02x, carried++new bytes give %02x", i, rb[i], want[i]);
+        }
+        for (uint32_t i = (T + A < N ? T + A : N); i < sizeof ist.tmp_in_buffer; i++)
+                if (ist.tmp_in_buffer[i] != 0xEE)
+                        FAIL("tmp_in_buffer[%u] beyond the field was written", i);
+}
+
+/* ---------------------------------------------------------------- chunked feeding of a reader */
+struct feed {
+        const uint8_t *bytes;
+        size_t n, pos;
+        size_t cut[4]; /* chunk boundaries (ascending); unused ones = n */
+        int ncut;
+};
+static size_t
+next_chunk(struct feed *f, uint8_t **p)
+{
+        size_t end = f->n;
+        for (int i = 0; i < f->ncut; i++)
+                if (f->cut[i] > f->pos) {
+                        end = f->cut[i];
+                        break;
+                }
+        size_t len = end - f->pos;
+        *p = gbuf(0, len);
+        memcpy(*p, f->bytes + f->pos, len);
+        return len;
+}
+
+/* ---------------------------------------------------------------- isal_read_zlib_header */
+static void
+one_zlib_read(const uint8_t *hdr, size_t n, size_t cut1, size_t cut2)
+{
+        struct isal_zlib_header zh;
+        struct feed f = { hdr, n, 0, { cut1, cut2 }, 2 };
+        int ret, calls = 0;
+        /* RFC 1950 verdict on these bytes */
+        int w_ret;
+        size_t w_used;
+        uint32_t w_info = 0, w_level = 0, w_fdict = 0, w_id = 0;
+        if (n < 2)
+                w_ret = ISAL_END_INPUT, w_used = n;
+        else {
+                w_info = hdr[0] >> 4, w_level = hdr[1] >> 6, w_fdict = (hdr[1] >> 5) & 1;
+                if ((hdr[0] & 15) != 8)
+                        w_ret = ISAL_UNSUPPORTED_METHOD, w_used = 2;
+                else if ((hdr[0] * 256u + hdr[1]) % 31)
+                        w_ret = ISAL_INCORRECT_CHECKSUM, w_used = 2;
+                else if (!w_fdict)
+                        w_ret = 0, w_used = 2;
+                else if (n < 6)
+                        w_ret = ISAL_END_INPUT, w_used = n;
+                else
+                        w_ret = 0, w_used = 6, w_id = (uint32_t) hdr[2] << 24 | hdr[3] << 16 | hdr[4] << 8 | hdr[5];
+        }
+        snprintf(ctx, sizeof ctx, "hdr=%02x%02x%02x%02x%02x%02x n=%zu cut1=%zu cut2=%zu", n > 0 ? hdr[0] : 0, n > 1 ? hdr[1] : 0,
+                 n > 2 ? hdr[2] : 0, n > 3 ? hdr[3] : 0, n > 4 ? hdr[4] : 0, n > 5 ? hdr[5] : 0, n, cut1, cut2);
+        isal_inflate_init(&ist);
+        memset(&zh, 0xCC, sizeof zh);
+        do {
+                uint8_t *p;
+                size_t len = next_chunk(&f, &p);
+                ist.next_in = p;
+                ist.avail_in = len;
+                ret = isal_read_zlib_header(&ist, &zh);
+                calls++;
+                if (ist.next_in < p || ist.next_in > p + len || ist.avail_in != len - (ist.next_in - p))
+                        FAIL("call %d: next_in/avail_in inconsistent", calls);
+                f.pos += ist.next_in - p;
+                if (ret == ISAL_END_INPUT && ist.avail_in != 0)
+                        FAIL("call %d: ISAL_END_INPUT with %u bytes of input left", calls, ist.avail_in);
+        } while (ret == ISAL_END_INPUT && f.pos < f.n && calls < 10);
+        if (ret != w_ret)
+                FAIL("status %d, RFC 1950 reading of the bytes gives %d", ret, w_ret);
+        if (f.pos != w_used)
+                FAIL("consumed %zu bytes, header is %zu bytes", f.pos, w_used);
+        if (n >= 2 && (ret == 0 || ret == ISAL_END_INPUT) && (zh.info != w_info || zh.level != w_level || zh.dict_flag != w_fdict))
+                FAIL("info/level/dict_flag = %u/%u/%u, header says %u/%u/%u", zh.info, zh.level, zh.dict_flag, w_info, w_level,
+                     w_fdict);
+        if (ret == 0 && w_fdict && zh.dict_id != w_id)
+                FAIL("dict_id %08x, DICTID bytes most-significant first are %08x", zh.dict_id, w_id);
+        if (ret == 0 && (ist.block_state != ISAL_BLOCK_NEW_HDR || ist.wrapper_flag != 1 || ist.tmp_in_size != 0))
+                FAIL("success but state not reset (block_state %d wrapper_flag %d)", ist.block_state, ist.wrapper_flag);
+}
+
+/* ---------------------------------------------------------------- isal_read_gzip_header */
+struct gzr {
+        struct gzw w;
+        uint32_t extra_buf, name_buf, comment_buf; /* reader-side buffer sizes; 0xffffffff = NULL (skip) */
+        uint32_t corrupt_crc;
+};
+static uint8_t gr_hdr[70000 + 3 * 4096];
+
+static uint32_t
+build_gzip(struct gzw a, uint8_t *o) /* RFC 1952 bytes for a (same construction as in one_gzip_write) */
+{
+        uint32_t n = 0, crc;
+        o[n++] = 0x1f, o[n++] = 0x8b, o[n++] = 8;
+        o[n++] = (a.text ? 1 : 0) | (a.hcrc ? 2 : 0) | (a.has_extra ? 4 : 0) | (a.has_name ? 8 : 0) | (a.has_comment ? 16 : 0);
+        o[n++] = a.time, o[n++] = a.time >> 8, o[n++] = a.time >> 16, o[n++] = a.time >> 24;
+        o[n++] = a.xflags, o[n++] = a.os;
+        if (a.has_extra) {
+                o[n++] = a.extra_len, o[n++] = a.extra_len >> 8;
+                for (uint32_t i = 0; i < a.extra_len; i++)
+                        o[n++] = (uint8_t) (i * 7 + 3);
+        }
+        if (a.has_name) {
+                for (uint32_t i = 0; i < a.name_len; i++)
+                        o[n++] = 1 + (i * 5) % 255;
+                o[n++] = 0;
+        }
+        if (a.has_comment) {
+                for (uint32_t i = 0; i < a.comment_len; i++)
+                        o[n++] = 1 + (i * 11 + 100) % 255;
+                o[n++] = 0;
+        }
+        if (a.hcrc) {
+                crc = ref_crc32(o, n);
+                o[n++] = crc, o[n++] = crc >> 8;
+        }
+        return n;
+}
+
+/* parse hdr[0..n) followed by `tail` junk bytes with the real reader, fed in chunks; undersized buffers
+ * are "reallocated" (content kept, size doubled) on overflow as igzip_lib.h prescribes */
+static void
+one_gzip_read(struct gzr r, size_t cut1, size_t cut2, size_t cut3)
+{
+        struct isal_gzip_header gh;
+        uint32_t n = build_gzip(r.w, gr_hdr), tail = 5;
+        struct feed f;
+        int ret, calls = 0;
+        uint32_t xb = r.extra_buf, nb = r.name_buf, cb = r.comment_buf;
+        uint8_t *xp, *np_, *cp;
+        int overflows = 0;
+        if (r.corrupt_crc)
+                gr_hdr[n - 1] ^= 0x40;
+        for (uint32_t i = 0; i < tail; i++)
+                gr_hdr[n + i] = 0x1f; /* looks like another header start: must not be touched */
+        f = (struct feed){ gr_hdr, n + tail, 0, { cut1, cut2, cut3 }, 3 };
+        snprintf(ctx, sizeof ctx,
+                 "w_text=%u w_hcrc=%u w_has_extra=%u w_extra_len=%u w_has_name=%u w_len_a=%u w_has_comment=%u w_len_b=%u "
+                 "extra_buf=%d name_buf=%d comment_buf=%d corrupt_crc=%u cut1=%zu cut2=%zu cut3=%zu",
+                 r.w.text, r.w.hcrc, r.w.has_extra, r.w.extra_len, r.w.has_name, r.w.name_len, r.w.has_comment, r.w.comment_len,
+                 (int) xb, (int) nb, (int) cb, r.corrupt_crc, cut1, cut2, cut3);
+        isal_inflate_init(&ist);
+        memset(&gh, 0, sizeof gh);
+        isal_gzip_header_init(&gh);
+#define SETBUF(field, lenf, sz, slot, ptr)                                                         \
+        ptr = sz == 0xffffffffu ? NULL : gbuf(slot, sz);                                           \
+        gh.field = (void *) ptr;                                                                   \
+        gh.lenf = sz == 0xffffffffu ? 0 : sz;
+        SETBUF(extra, extra_buf_len, xb, 1, xp)
+        SETBUF(name, name_buf_len, nb, 2, np_)
+        SETBUF(comment, comment_buf_len, cb, 3, cp)
+        for (;;) {
+                uint8_t *p;
+                size_t len = next_chunk(&f, &p);
+                ist.next_in = p;
+                ist.avail_in = len;
+                ret = isal_read_gzip_header(&ist, &gh);
+                calls++;
+                if (ist.next_in < p || ist.next_in > p + len || ist.avail_in != len - (ist.next_in - p))
+                        FAIL("call %d: next_in/avail_in inconsistent", calls);
+                f.pos += ist.next_in - p;
+                if (ret == ISAL_END_INPUT) {
+                        if (ist.avail_in != 0)
+                                FAIL("call %d: ISAL_END_INPUT with %u bytes of input left", calls, ist.avail_in);
+                        if (f.pos >= f.n || calls > 40)
+                                break;
+                        continue;
+                }
+#define GROW(code, field, lenf, sz, slot, ptr)                                                     \
+        if (ret == code) {                                                                         \
+                uint32_t nsz = sz * 2 + 1;                                                         \
+                uint8_t *q;                                                                        \
+                if (ptr == NULL || ++overflows > 40 || nsz > 8192)                                 \
+                        FAIL("call %d: overflow status %d for a buffer that is NULL or already larger than the field", calls, ret); \
+                q = gbuf(slot + 3, nsz);                                                           \
+                memcpy(q, ptr, sz);                                                                \
+                /* swap the two guard slots so that the next growth has room */                    \
+                { uint8_t *b = guard[slot].base; guard[slot].base = guard[slot + 3].base; guard[slot + 3].base = b; } \
+                ptr = q;                                                                           \
+                sz = nsz;                                                                          \
+                gh.field = (void *) ptr;                                                           \
+                gh.lenf = sz;                                                                      \
+                continue;                                                                          \
+        }
+                GROW(ISAL_EXTRA_OVERFLOW, extra, extra_buf_len, xb, 1, xp)
+                GROW(ISAL_NAME_OVERFLOW, name, name_buf_len, nb, 2, np_)
+                GROW(ISAL_COMMENT_OVERFLOW, comment, comment_buf_len, cb, 3, cp)
+                break;
+        }
+        if (r.corrupt_crc) {
+                if (ret != ISAL_INCORRECT_CHECKSUM)
+                        FAIL("corrupted CRC16 but status %d", ret);
+                return;
+        }
+        if (ret != ISAL_DECOMP_OK)
+                FAIL("status %d after %d calls for a well-formed header of %u bytes", ret, calls, n);
+        if (f.pos != n)
+                FAIL("consumed %zu bytes, the header is %u bytes", f.pos, n);
+        if (gh.time != r.w.time || gh.xflags != (r.w.xflags & 255) || gh.os != (r.w.os & 255) || gh.text != (r.w.text ? 1u : 0u))
+                FAIL("time/xflags/os/text = %08x/%u/%u/%u, header has %08x/%u/%u/%u", gh.time, gh.xflags, gh.os, gh.text, r.w.time,
+                     r.w.xflags & 255, r.w.os & 255, r.w.text ? 1 : 0);
+        if (gh.extra_len != (r.w.has_extra ? r.w.extra_len : 0))
+                FAIL("extra_len %u, XLEN (least-significant byte first) is %u", gh.extra_len, r.w.has_extra ? r.w.extra_len : 0);
+        if (r.w.has_extra && xp)
+                for (uint32_t i = 0; i < r.w.extra_len; i++)
+                        if (xp[i] != (uint8_t) (i * 7 + 3))
+                                FAIL("extra[%u] = %02x, field byte is %02x", i, xp[i], (uint8_t) (i * 7 + 3));
+        if (r.w.has_name && np_)
+                for (uint32_t i = 0; i <= r.w.name_len; i++)
+                        if (np_[i] != (i < r.w.name_len ? 1 + (i * 5) % 255 : 0))
+                                FAIL("name[%u] = %02x differs from the header", i, np_[i]);
+        if (r.w.has_comment && cp)
+                for (uint32_t i = 0; i <= r.w.comment_len; i++)
+                        if (cp[i] != (i < r.w.comment_len ? 1 + (i * 11 + 100) % 255 : 0))
+                                FAIL("comment[%u] = %02x differs from the header", i, cp[i]);
+        if (ist.block_state != ISAL_BLOCK_NEW_HDR || ist.wrapper_flag != 1 || ist.tmp_in_size != 0)
+                FAIL("success but state not reset (block_state %d wrapper_flag %d)", ist.block_state, ist.wrapper_flag);
+}
+
+/* arbitrary bytes: only the documented statuses, no out-of-bounds access (guard pages) */
+static void
+one_gzip_junk(uint64_t seed, size_t n, uint32_t bufsz)
+{
+        struct isal_gzip_header gh;
+        uint8_t *p = gbuf(0, n);
+        int ret, calls = 0;
+        rp_s = seed * 0x9E3779B97F4A7C15ull + 1;
+        for (size_t i = 0; i < n; i++)
+                p[i] = rp_rand() >> 24;
+        if (n >= 3 && (seed & 1)) /* half of them get past the magic */
+                p[0] = 0x1f, p[1] = 0x8b, p[2] = 8;
+        snprintf(ctx, sizeof ctx, "junk seed=%llu n=%zu bufsz=%u", (unsigned long long) seed, n, bufsz);
+        isal_inflate_init(&ist);
+        isal_gzip_header_init(&gh);
+        gh.extra = gbuf(1, bufsz), gh.extra_buf_len = bufsz;
+        gh.name = (char *) gbuf(2, bufsz), gh.name_buf_len = bufsz;
+        gh.comment = (char *) gbuf(3, bufsz), gh.comment_buf_len = bufsz;
+        ist.next_in = p;
+        ist.avail_in = n;
+        do {
+                ret = isal_read_gzip_header(&ist, &gh);
+                if (!(ret == ISAL_DECOMP_OK || ret == ISAL_END_INPUT || ret == ISAL_NAME_OVERFLOW || ret == ISAL_COMMENT_OVERFLOW ||
+                      ret == ISAL_EXTRA_OVERFLOW || ret == ISAL_INVALID_WRAPPER || ret == ISAL_UNSUPPORTED_METHOD ||
+                      ret == ISAL_INCORRECT_CHECKSUM))
+                        FAIL("undocumented status %d", ret);
+                if (ist.next_in < p || ist.next_in > p + n || ist.avail_in != n - (ist.next_in - p))
+                        FAIL("next_in/avail_in inconsistent");
+        } while ((ret == ISAL_NAME_OVERFLOW || ret == ISAL_COMMENT_OVERFLOW || ret == ISAL_EXTRA_OVERFLOW) && ++calls < 3);
+}
+
 RP_MAIN_BEGIN
 RP_MODE("zlib_write_header")
 {
@@ -314,5 +647,112 @@ RP_MODE("gzip_write_header")
                         }
                 }
         }
+}
+RP_MODE("fixed_size_read")
+{
+        guard_init();
+        if (!rp_search && rp_has("read_size")) {
+                uint32_t N = rp_get("read_size", 10), T = rp_get("tmp_in_size", 0), A = rp_get("avail_in", N);
+                if (N >= 1 && N <= 10 && T < N && A < 100000)
+                        one_fixed(N, T, A);
+        } else
+                for (uint32_t N = 1; N <= 10; N++)
+                for (uint32_t T = 0; T < N; T++)
+                for (uint32_t A = 0; A <= N + 2; A++)
+                        one_fixed(N, T, A);
+}
+RP_MODE("zlib_read_header")
+{
+        /* the witness of a reader harness is a heap configuration; the battery is exhaustive instead:
+         * every CMF/FLG pair, with and without DICTID, every truncation, every two-cut chunking */
+        uint8_t h[6];
+        guard_init();
+        for (uint32_t v = 0; v < 65536; v++) {
+                h[0] = v >> 8, h[1] = v;
+                h[2] = 0x01 + (v & 3), h[3] = 0x82, h[4] = 0xA3, h[5] = 0xC4 ^ (v >> 3);
+                int interesting = (h[0] & 15) == 8 && (h[0] * 256u + h[1]) % 31 == 0;
+                for (size_t n = 0; n <= 6; n++) {
+                        one_zlib_read(h, n, n, n);
+                        if (interesting || v % 97 == 0)
+                                for (size_t c1 = 0; c1 <= n; c1++)
+                                for (size_t c2 = c1; c2 <= n; c2++)
+                                        one_zlib_read(h, n, c1, c2);
+                }
+        }
+}
+RP_MODE("gzip_read_header")
+{
+        static const uint32_t xl[] = { 0, 1, 5, 300 };
+        static const uint32_t sl[] = { 0, 1, 7 };
+        struct gzr r;
+        guard_init();
+        for (uint32_t fl = 0; fl < 32; fl++)
+        for (unsigned xi = 0; xi < 4; xi++)
+        for (unsigned ni = 0; ni < 3; ni++)
+        for (unsigned ci = 0; ci < 3; ci++)
+        for (unsigned bm = 0; bm < 4; bm++) { /* buffers: ample / exact / undersized / NULL */
+                memset(&r, 0, sizeof r);
+                r.w.text = fl & 1;
+                r.w.hcrc = !!(fl & 2);
+                r.w.has_extra = !!(fl & 4);
+                r.w.has_name = !!(fl & 8);
+                r.w.has_comment = !!(fl & 16);
+                if ((!r.w.has_extra && xi) || (!r.w.has_name && ni) || (!r.w.has_comment && ci))
+                        continue;
+                r.w.extra_len = xl[xi], r.w.name_len = sl[ni], r.w.comment_len = sl[ci];
+                r.w.time = 0x01020304u * (fl + 1), r.w.xflags = 2 + fl, r.w.os = 255 - fl;
+                r.extra_buf = bm == 0 ? 400 : bm == 1 ? r.w.extra_len : bm == 2 ? r.w.extra_len / 2 : 0xffffffffu;
+                r.name_buf = bm == 0 ? 40 : bm == 1 ? r.w.name_len + 1 : bm == 2 ? r.w.name_len / 2 : 0xffffffffu;
+                r.comment_buf = bm == 0 ? 40 : bm == 1 ? r.w.comment_len + 1 : bm == 2 ? r.w.comment_len : 0xffffffffu;
+                uint32_t n = build_gzip(r.w, gr_hdr), lim = n + 5;
+                one_gzip_read(r, lim, lim, lim);
+                /* every single cut in the first 40 and the last 24 bytes, pairs of cuts in the first 16 */
+                for (size_t c = 0; c <= lim; c++)
+                        if (c < 40 || c + 24 > lim)
+                                one_gzip_read(r, c, lim, lim);
+                for (size_t c1 = 1; c1 < 16 && c1 < lim; c1++)
+                for (size_t c2 = c1 + 1; c2 < 20 && c2 < lim; c2++)
+                        one_gzip_read(r, c1, c2, lim);
+                if (bm == 0 && xi < 3) { /* byte-by-byte would need many cuts: 3 cuts spread */
+                        one_gzip_read(r, n / 4, n / 2, 3 * n / 4);
+                        one_gzip_read(r, n - 1, n, lim);
+                }
+                if (r.w.hcrc) {
+                        r.corrupt_crc = 1;
+                        one_gzip_read(r, lim, lim, lim);
+                        one_gzip_read(r, n - 1, lim, lim);
+                }
+        }
+        for (uint64_t seed = 0; seed < 20000; seed++)
+                one_gzip_junk(seed, seed % 48, (uint32_t) (seed % 7));
+}
+RP_MODE("fixed_size_read_wrap")
+{
+        /* FINDING demonstration (not part of any --search battery: it reproduces on the pinned tree).
+         * A legitimate call: one header byte carried (tmp_in_size == 1), then a chunk of 2^32-1 readable
+         * bytes.  avail_in + tmp_in_size wraps to 0 < read_size, the "not enough input" branch copies
+         * avail_in bytes into the 328-byte tmp_in_buffer.  The state is placed so that it ends at an
+         * inaccessible page; the overflow is reported through SIGSEGV. */
+        long pg = sysconf(_SC_PAGESIZE);
+        size_t big = 0xffffffffull, ssz = (sizeof(struct inflate_state) + pg - 1) / pg * pg;
+        uint8_t *in = mmap(0, big + pg, PROT_READ | PROT_WRITE, MAP_PRIVATE | MAP_ANONYMOUS | MAP_NORESERVE, -1, 0);
+        uint8_t *sm = mmap(0, ssz + pg, PROT_READ | PROT_WRITE, MAP_PRIVATE | MAP_ANONYMOUS, -1, 0);
+        struct inflate_state *st;
+        uint8_t *rb = 0;
+        if (in == MAP_FAILED || sm == MAP_FAILED || mprotect(sm + ssz, pg, PROT_NONE)) {
+                printf("cannot map 4 GiB of address space here\n");
+                return 2;
+        }
+        signal(SIGSEGV, on_segv);
+        st = (struct inflate_state *) (sm + ssz - sizeof *st);
+        isal_inflate_init(st);
+        st->tmp_in_buffer[0] = 0x1f;
+        st->tmp_in_size = 1;
+        st->next_in = in;
+        st->avail_in = 0xffffffffu;
+        snprintf(ctx, sizeof ctx, "read_size=10 tmp_in_size=1 avail_in=4294967295 (a readable 4 GiB - 1 chunk)");
+        uint32_t ret = fixed_size_read(st, &rb, 10);
+        if (ret != 0 || st->next_in != in + 9)
+                FAIL("ret=%u, input advanced by %ld instead of 9", ret, (long) (st->next_in - in));
 }
 RP_MAIN_END
